@@ -352,6 +352,139 @@ def pair_oracle(ctx, im, rng, n):
                 ctx.violation(f"distinct-tags-{k}", {"kind": "pair", "q": q, "hed": s}, {"got": got, "want": want[k]})
 
 
+DUP_POOL = ["Red", "Blue", "Green", "Square", "Circle", "Triangle", "Onset", "Clear-throat", "Yellow", "Purple"]
+
+
+def dup_scenario(rng, pool):
+    """An annotation with two or three structurally equal sub-groups at different places, each next to a side tag
+    that occurs nowhere else.  Returns (top, parents, copies, D members, side tags); `top` is a children list whose
+    items listed in `parents` are the groups holding a copy, `copies` are the copies themselves (all by identity)."""
+    tags = rng.sample(pool, 8)
+    d_size = rng.choice([2, 2, 3])
+    members = tags[:d_size]
+    sides = tags[d_size:d_size + 3]
+    inner = rng.random() < 0.25                       # a nested group inside the duplicated group
+    n_copies = rng.choice([2, 2, 2, 3])
+    layout = rng.choice(["parent", "parent", "parent", "top", "deep", "mixed"])
+    top, parents, copies = [], [], []
+    for i in range(n_copies):
+        d = list(members)
+        if inner:
+            d = d[:-1] + [[d[-1]]]
+        rng.shuffle(d)
+        copies.append(d)
+        if layout == "top" or (layout == "mixed" and i == 0):
+            top.append(d)
+            if layout == "top":
+                top.append(sides[i])
+        else:
+            par = [d, sides[i]]
+            if rng.random() < 0.3:
+                par.append(tags[7])
+            rng.shuffle(par)
+            parents.append(par)
+            if layout == "deep" and i == 0:
+                top.append([par, tags[6]])
+            else:
+                top.append(par)
+    if rng.random() < 0.3:
+        top.append(tags[6] if layout != "deep" else tags[5])
+    rng.shuffle(top)
+    return top, parents, copies, members, sides[:n_copies]
+
+
+def dup_variants(rng, top, parents, copies, cap=48):
+    """sibling reorderings: ALL permutations of the top level x of the children of every parent of a copy x of the
+    members of every copy when that is at most `cap` annotations, else `cap` random ones (identity always first)"""
+    import itertools
+    import math
+    special = {id(x): x for x in parents + copies}
+
+    def build(node, choice):
+        out = []
+        for k in (choice.get(id(node)) or node):
+            out.append(k if isinstance(k, str) else build(k, choice))
+        return out
+    spaces = [list(itertools.permutations(top))] + [list(itertools.permutations(x)) for x in special.values()]
+    total = math.prod(len(sp) for sp in spaces)
+    keys = [id(top)] + list(special)
+    seen, out = set(), []
+
+    def emit(pick):
+        s = tree_str(build(top, dict(zip(keys, pick))))
+        if s not in seen:
+            seen.add(s)
+            out.append(s)
+    emit([top] + list(special.values()))
+    if total <= cap:
+        for pick in itertools.product(*spaces):
+            emit(pick)
+    else:
+        for _ in range(cap):
+            emit([rng.choice(sp) for sp in spaces])
+    return out
+
+
+def dup_oracle(ctx, im, rng, n):
+    """Sibling-order invariance, &&-commutativity and &&-associativity on annotations with structurally equal
+    sub-groups, for queries that lift an && result through [ ] / { } and combine it with a term that sits next to
+    only one of the copies (or with a second lifted result)."""
+    pool = [t for t in DUP_POOL if im.hed(t).get_all_tags()[0].tag_terms]
+    term = {t: im.hed(t).get_all_tags()[0].tag_terms[-1] for t in pool}
+    for _ in range(n):
+        top, parents, copies, members, sides = dup_scenario(rng, pool)
+        a, b = (term[x] for x in rng.sample(members, 2))
+        variants = dup_variants(rng, top, parents, copies)
+        hss = [im.hed(s) for s in variants]
+        lifted = [f"[{a} && {b}]", "{" + f"{a} && {b}" + "}", f"[{b} && {a}]"]
+        queries, comm, assoc = [], [], []
+        for side in sides:
+            c = term[side]
+            L = rng.choice(lifted)
+            queries += [f"{L} && {c}", f"[{L} && {c}]", "{" + f"{L} && {c}" + "}", f"[[{a} && {b}] && {c}]"]
+            comm.append((L, c))
+            assoc.append((L, c, rng.choice(lifted)))
+        queries += [f"{lifted[0]} && {lifted[0]}", f"{lifted[1]} && {lifted[1]}", f"{lifted[0]} && {lifted[2]}",
+                    f"[{lifted[0]} && {lifted[0]}]", f"{lifted[0]} && {lifted[1]}"]
+        comm += [(lifted[0], lifted[1]), (lifted[0], lifted[2])]
+        compiled = {}
+
+        def val(q, k):
+            if q not in compiled:
+                st, h = im.compile(q)
+                if st != "ok":
+                    ctx.violation("plain-query-rejected", {"kind": "parse", "q": q}, st)
+                compiled[q] = h
+            h = compiled[q]
+            return None if h is None else bool(h.search(hss[k]))
+        ctx.count("dup-scenarios")
+        ctx.count("dup-annotations", len(variants))
+        any_match = False
+        for q in dict.fromkeys(queries):
+            vals = [val(q, k) for k in range(len(variants))]
+            ctx.evaluations += len(vals)
+            any_match = any_match or any(vals)
+            if len(set(vals)) > 1:
+                k1, k2 = vals.index(True), vals.index(False)
+                ctx.violation("sibling-order", {"kind": "order", "q": q, "hed": variants[k1], "hed2": variants[k2]},
+                              {"matches_first": True, "matches_reordered": False})
+        for x, y in comm:
+            for k in range(len(variants)):
+                if val(f"{x} && {y}", k) != val(f"{y} && {x}", k):
+                    ctx.violation("and-commutative", {"kind": "law", "A": x, "B": y, "C": y, "hed": variants[k],
+                                                      "law": "and-commutative"}, f"{x} && {y} vs {y} && {x}")
+                    break
+        for x, y, z in assoc:
+            for k in range(len(variants)):
+                ctx.evaluations += 1
+                if val(f"({x} && {y}) && {z}", k) != val(f"{x} && ({y} && {z})", k):
+                    ctx.violation("and-associative", {"kind": "law", "A": x, "B": y, "C": z, "hed": variants[k],
+                                                      "law": "and-associative"}, "")
+                    break
+        ctx.case((tuple(variants[:1]), a, b), nontrivial=any_match)
+        ctx.check_time()
+
+
 def law_oracle(ctx, im, rng, n_triples, trees_per):
     """the algebraic laws on the implementation; A, B, C are rendered in parentheses so that they compose"""
     def grp(x):
@@ -513,6 +646,7 @@ def run(ctx):
     # laws on the implementation
     term_oracle(ctx, im, rng, 150 if quick else 3000)
     pair_oracle(ctx, im, rng, 300 if quick else 6000)
+    dup_oracle(ctx, im, rng, 80 if quick else 1500)
     law_oracle(ctx, im, rng, *((220, 5) if quick else (4000, 6)))
     service_check(ctx, im, rng, 12 if quick else 150)
     # report the smallest divergence / violation first
@@ -535,6 +669,13 @@ def replay(ctx, rec):
     elif kind == "pair":
         check_pairs(ctx, im, [(case["q"], case["hed"])], "replay")
         print("replayed", json.dumps(case), "violations:", len(ctx.violations), "disagreements:", len(ctx.disagreements))
+    elif kind == "order":
+        st, h = im.compile(case["q"])
+        r1, r2 = (bool(h.search(im.hed(case[k]))) for k in ("hed", "hed2"))
+        print("replayed", json.dumps(case), "matches:", r1, "reordered:", r2)
+        if r1 != r2:
+            ctx.violation("sibling-order", case, {"matches_first": r1, "matches_reordered": r2})
+        check_pairs(ctx, im, [(case["q"], case["hed"]), (case["q"], case["hed2"])], "replay")
     elif kind == "law":
         a, b, c, s = case["A"], case["B"], case["C"], case["hed"]
         hs = im.hed(s)
